@@ -19,8 +19,12 @@ LEVEL_TEXT = ('Lean 4 theorems about the model of propagate_fft, for all fields,
               'shape > fft_shape/oversample (float comparison, proved equivalent to shape·oversample > fft_shape) and wavefronts in which ANY field '
               'carries tilt are refused; scratch_shape is the grid at max(wavelength) and suffices for every smaller wavelength; metadata carried. '
               'Regenerated from propagate.py/util.py: scratch slice regions, the _has_tilt fold, _dft_alpha, the _fft_shape call site and reported '
-              'wavelengths, both shape branches and guards, the scratch guard, the metadata hand-over, scratch_shape\'s call, the pad index block.')
-LEVEL_NOTE = ('Partial: np.fft.fft2/fftshift/ifftshift and np.round/np.min/np.max enter through their documented contracts (not verified; the '
+              'wavelengths, both shape branches and guards, the scratch guard, the metadata hand-over, scratch_shape\'s call, the pad index block, and the _fft2 '
+              'composition (which shift is applied inside/outside and the norm= keyword are read from the source: Gen.fft2InnerIdx/fft2OuterIdx/fft2Norm, '
+              'fft2_composition proves they are ifftshift / fftshift / ortho). propagateFft_scale_covariant: scaling every length by k>0 leaves the whole outcome '
+              '(accepted field data and extents, or the same refusal) unchanged and multiplies the reported wavelength by k. The oracle also checks that a '
+              'caller\'s scratch buffer is untouched outside the fft_shape corner after the call.')
+LEVEL_NOTE = ('Partial: np.fft.fft2/fftshift/ifftshift and np.round/np.min/np.max enter through their documented contracts (not verified; which of them _fft2 composes and in which order IS regenerated; the '
               'monotonicity of the rounding is a hypothesis of scratch_shape_monotone); oversample is an integer in the model and theorems — float '
               'oversample is exercised by the oracle only (known finding KF-C09-float-oversample-explicit-shape); anisotropic dx·du whose per-axis wavelengths DIFFER is excluded by '
               'hypothesis (KF-C09-fft-anisotropic-wavelength; consistent per-axis grids are covered). Trusted: Lean kernel, py2lean subset semantics, generator coverage.')
@@ -205,6 +209,7 @@ def impl(c):
            'advertised_list': adv_list, 'advertised_each': None if adv_list is None else adv_each, 'canvas': P._cx(w.field), 'shape': [int(x) for x in w.shape],
            'pixelscale': [float(x) for x in w.pixelscale], 'wavelength': float(w.wavelength), 'focal_length': float(w.focal_length),
            'scratch': None if scr is None else P._cx(scr), 'advertised': adv}
+    scr0 = None if scr is None else scr.copy()
     try:
         o = lentil.propagate_fft(w, pixelscale=du, shape=shape, oversample=c['os'], scratch=scr)
     except Exception as e:
@@ -216,6 +221,11 @@ def impl(c):
     res = {'in': inp, 'out': P._cx(fld), 'wavelength': float(o.wavelength), 'focal_length': float(o.focal_length),
            'pixelscale': [float(x) for x in o.pixelscale], 'ptype': str(o.ptype), 'shape': [int(x) for x in o.shape],
            'grid': [int(x) for x in o.data[0].data.shape], 'nfields': len(o.data)}
+    if scr is not None:
+        # the caller's buffer outside the S0 x S1 corner that the propagation uses must be left as it was
+        g0, g1 = res['grid']
+        keep = np.ones(scr.shape, bool); keep[:g0, :g1] = False
+        res['outside_unchanged'] = bool(np.array_equal(scr[keep], scr0[keep]))
     # reference 1: the same call without scratch
     if scr is not None:
         o2 = lentil.propagate_fft(w, pixelscale=du, shape=shape, oversample=c['os'])
@@ -315,6 +325,8 @@ def oracle(c, io):
     got = _c(io['out'])
     tol = P._tol(io)
     if got.size == 0: return None
+    if io.get('outside_unchanged') is False:
+        return f"propagate_fft changed the scratch buffer {inp['scratch']['shape']} outside the {io['grid']} corner it uses"
     if 'noscratch' in io:
         d = float(np.max(np.abs(got - _c(io['noscratch']))))
         if d > 1e-12 * (1 + float(np.max(np.abs(got)))): return f"result with scratch ({c['scratch']['size']}, {c['scratch']['content']}) differs from the result without scratch by {d:.3e}"
